@@ -48,7 +48,7 @@ N_CASES = {'quick': 420, 'thorough': 14000}     # per shard (16 shards)
 def plan(tier, seed):
     n = 16
     q = tier == 'quick'
-    return [{'shard': i, 'of': n, 'timeout': 600 if q else 7000, 'budget_s': 45 if q else 1000} for i in range(n)]
+    return [{'shard': i, 'of': n, 'timeout': 600 if q else 7000, 'budget_s': 45 if q else 900} for i in range(n)]
 
 # ------------------------------------------------------------------ capturing get_edges inside the tools
 
@@ -222,8 +222,11 @@ def check_against_model(shard, obs, tbs, m):
         # the range may or may not include the tail pulse: "first and last edge of the block's data" allows both
         bits = why = None
         for tail in ([tb.tail, 0] if rg['tail'] else [0]):
-            bits, why1 = tm.decode_bits(E, s, e, tb.s0, tb.s1, tail, rg['gap'])
-            why = why or why1
+            for gap in rg['gaps']:
+                bits, why1 = tm.decode_bits(E, s, e, tb.s0, tb.s1, tail, gap)
+                why = why or why1
+                if bits is not None:
+                    break
             if bits is not None:
                 break
         shard.inc('monitor:blocks_decoded_from_edges')
